@@ -705,7 +705,7 @@ fn main() {
          immediately after dispatching) x join awaited by futures_executor or inside a compio runtime x (1 in 12) a proactor configuration that makes every worker \
          panic at start-up. Non-trivial = (>= 2 dispatching threads and >= 2 workers) or join called while accepted tasks were unfinished; distinct = distinct serialised case.",
     );
-    p.quick_cases = 1200;
+    p.quick_cases = 900;
     p.thorough_cases = 30000;
     p.replay_repeats = 30;
     p.max_shrink_iters = 40;
@@ -754,7 +754,8 @@ fn main() {
         }
         let o = run_case(c);
         match &o {
-            Outcome::Inconclusive { .. } => {
+            Outcome::Inconclusive { why } => {
+                eprintln!("C18: inconclusive case: {why}");
                 HUNG.fetch_add(1, Ordering::SeqCst);
             }
             _ => HUNG.store(0, Ordering::SeqCst),
